@@ -158,3 +158,18 @@ def describe(case):
     ign = [o[1] for o in case["ops"] if o[0] == "ignore"]
     nr = sum(1 for f in case["fns"] if f["raises"])
     return "%s raisers=%d policy=%s" % (case.get("gen", "corpus"), nr, "".join("I" if b else "R" for b in ign) or "default")
+
+
+def model_search(rng, tier):
+    """Search the model's boolean restatement of the policy theorem for a counterexample."""
+    from harness import core
+    cs = [G.rand_policy_history(rng) for _ in range(300 if tier == "quick" else 3000)]
+    terms = ["finding_C19_a %s || policy_ok_from false %s (run_hist %s)" % ((D.history_term(c),) * 3) for c in cs]
+    try:
+        ok, bad, _ = core.eval_cases_in_coq(ID + "_search", COQ_IMPORTS, terms)
+    except Exception:
+        return None
+    if ok and bad:
+        c = min((cs[i] for i in bad), key=lambda c: len(c["ops"]))
+        return {"case": c, "what": "a call of the model does not follow the exception policy outside class C19-a"}
+    return None
